@@ -156,6 +156,11 @@ fn body_pool() -> Vec<(&'static str, Argv)> {
         ("WATCH-INSIDE", av(&["WATCH", "s"])),
         ("GET-lower", av(&["get", "s"])),
         ("SET-plain-fastpath-shape", av(&["SET", "s", "fast"])),
+        ("UNWATCH-inside", av(&["UNWATCH"])),
+        ("PING-inside", av(&["PING"])),
+        ("STUB-unknown-sub", av(&["CLIENT", "NOSUCHSUB"])),
+        ("STUB-client-list", av(&["CLIENT", "LIST"])),
+        ("STUB-config-set", av(&["CONFIG", "SET", "maxmemory", "0"])),
     ]
 }
 
@@ -188,8 +193,45 @@ fn bop_cmds(kind: &str, key: &str) -> Vec<Argv> {
         "t" => av(&["SADD", "t", "m2"]),
         _ => av(&["SET", "n", "appeared"]),
     };
+    // changes that touch only one end of the value (a snapshot comparison that stops early, compares a
+    // prefix or looks at the length only must still notice them)
+    let grow_tail: Argv = match key {
+        "s" => av(&["APPEND", "s", "x"]),
+        "l" => av(&["RPUSH", "l", "zz"]),
+        "h" => av(&["HSET", "h", "zzz", "9"]),
+        "z" => av(&["ZADD", "z", "9", "zzz"]),
+        "t" => av(&["SADD", "t", "zzz"]),
+        _ => av(&["SET", "n", "appeared"]),
+    };
+    let grow_head: Argv = match key {
+        "s" => av(&["SETRANGE", "s", "0", "9"]),
+        "l" => av(&["LPUSH", "l", "0"]),
+        "h" => av(&["HSET", "h", "a0", "9"]),
+        "z" => av(&["ZADD", "z", "0", "a0"]),
+        "t" => av(&["SADD", "t", "a0"]),
+        _ => av(&["RPUSH", "n", "appeared"]),
+    };
+    let shrink: Vec<Argv> = match key {
+        "l" => vec![av(&["RPOP", "l"])],
+        "s" => vec![av(&["SET", "s", "1"])],
+        "h" => vec![av(&["HSET", "h", "g", "2"]), av(&["HDEL", "h", "f"])],
+        "z" => vec![av(&["ZADD", "z", "1", "m0"]), av(&["ZREM", "z", "m"])],
+        "t" => vec![av(&["SADD", "t", "m0"]), av(&["SREM", "t", "m"])],
+        _ => vec![],
+    };
     match kind {
         "none" => vec![],
+        "grow-tail" => vec![grow_tail],
+        "grow-head" => vec![grow_head],
+        "shrink-or-swap" => shrink,
+        "same-length-swap" => match key {
+            "l" => vec![av(&["LSET", "l", "1", "B"])],
+            "h" => vec![av(&["HDEL", "h", "f"]), av(&["HSET", "h", "f2", "1"])],
+            "z" => vec![av(&["ZREM", "z", "m"]), av(&["ZADD", "z", "1", "m9"])],
+            "t" => vec![av(&["SREM", "t", "m"]), av(&["SADD", "t", "m9"])],
+            "s" => vec![av(&["SET", "s", "01"])],
+            _ => vec![],
+        },
         "same-value" => vec![same],
         "change" => vec![change],
         "delete" => vec![av(&["DEL", key])],
@@ -462,7 +504,7 @@ pub fn txn_leg(args: &Args) {
     let pool_len = body_pool().len();
     rt.block_on(async {
         // (1) the systematic matrix: watched key type x B-op kind x every gap, fixed small body
-        let bops = ["none", "same-value", "change", "delete", "type-change", "other-key", "change-and-revert"];
+        let bops = ["none", "same-value", "change", "delete", "type-change", "other-key", "change-and-revert", "grow-tail", "grow-head", "shrink-or-swap", "same-length-swap"];
         let mut idx = 0usize;
         for wk in ["s", "l", "h", "z", "t", "n"] {
             for bop in bops {
@@ -683,7 +725,7 @@ pub fn exec_leg(args: &Args) {
             let c = case_from(&w["witness"]);
             (c.watch, c.bop, c.bkey, c.body, c.discard)
         } else {
-            let bops = ["none", "same-value", "change", "delete", "type-change", "other-key", "change-and-revert"];
+            let bops = ["none", "same-value", "change", "delete", "type-change", "other-key", "change-and-revert", "grow-tail", "grow-head", "shrink-or-swap", "same-length-swap"];
             (
                 (0..rng.gen_range(0..3)).map(|_| KEYS[rng.gen_range(0..KEYS.len())]).collect(),
                 bops[rng.gen_range(0..bops.len())],
